@@ -74,6 +74,7 @@ package collection
 // of every one of them and each side is reached by one of them; all zero for an empty index.
 //@ ghost macro inSp(c, o) = c.spatial[o] > 0
 //@ func Collection.Bounds
+//@   timeout 240
 //@   requires c != nil
 //@   modifies nothing
 //@   uses rt.stored, rt.round, rt.search.content, geo.box.ordered
